@@ -988,3 +988,64 @@ class ScipyFit(Contract):
                         cx.oblige(f"post.start.{p}", st is before[p], "post", "start value = current parameter")
         for p in self.fx:
             cx.oblige(f"post.fit_keeps_fixed.{p}", T.eq(term_of(obj.fields[p]), self.fx[p].t), "post", "fixed parameter unchanged by fitting")
+
+
+# =============================================================================== lemma.fit_independent_instances (C12, C19)
+def _indep_cases():
+    out = []
+    for fam in FAMILIES:
+        for p in fam_params(fam):
+            out.append(dict(fam=fam, fixed=p))
+    return out
+
+
+@contract(None, ["C12", "C19", "C11"], _indep_cases(), name="lemma.fit_independent_instances")
+class FitIndependent(Contract):
+    """history: fitting one instance with a fixed parameter and then ANOTHER instance without any: the second fit
+    receives no fixing that stems from the first (no state shared between instances through the class)"""
+
+    def case_label(self, case):
+        return f"{case['fam']},first_fit_fixes={case['fixed']}"
+
+    def inputs(self, itp, case):
+        return [], {}
+
+    def body(self, itp, case, args, kwargs):
+        cx = itp.cx
+        fam = case["fam"]
+        n = cx.sym("n", "int")
+        cx.assume(T.ge(n, 2))
+        s1, s2 = sym_array(cx, "sample1", (n,)), sym_array(cx, "sample2", (n,))
+        fx = real(cx, "fixed_value")
+        cx.assume(T.gt(fx.t, 0))
+        a = itp.instantiate(ClassRef(D + fam), [], {"f_" + case["fixed"]: fx})
+        itp.call_value(itp.get_attr(a, "fit"), [s1], {})
+        b = itp.instantiate(ClassRef(D + fam), [], {})
+        itp.call_value(itp.get_attr(b, "fit"), [s2], {})
+        return (a, b, s2)
+
+    def post(self, itp, case, inp, out):
+        cx = itp.cx
+        fam = case["fam"]
+        if out.outcome != "return":
+            cx.oblige("lemma.returns", False, "post", f"raised {out.exc}: {out.msg}")
+            return
+        calls = cx.ghost.get("fit_calls", [])
+        cx.oblige("lemma.two_fits", len(calls) == 2, "post")
+        if len(calls) != 2:
+            return
+        second = calls[1]
+        names = SCIPY_SLOTS[scipy_name(fam)]
+        ns = len(names) - 2
+        # slots a virocon parameter maps to must be free in the second fit
+        owned = set()
+        for p, key in FAMILIES[fam]["fit_keys"].items():
+            if key.startswith("f") and key[1:].isdigit():
+                owned.add(int(key[1:]))
+            elif key == "floc":
+                owned.add(ns)
+            elif key == "fscale":
+                owned.add(ns + 1)
+        for i in sorted(owned):
+            cx.oblige(f"lemma.second_fit_unrestricted.{names[i]}", second["fixed"][i] is None, "post", "the unrestricted instance is fitted without any constraint left over from another instance")
+        cx.oblige("lemma.second_fit_data", second["data"] is out.value[2], "post")
